@@ -212,6 +212,12 @@ class PathTemplateWriter:
 
             # insert the rotation stamp into the new filename.
             dst = os.path.join(src_dir, "{fname}.{stamp}.{ext}".format(**locals()))
+
+            # never overwrite an earlier file that was rotated within the same second
+            count = 0
+            while os.path.exists(dst):
+                count += 1
+                dst = os.path.join(src_dir, "{fname}.{stamp}-{count}.{ext}".format(**locals()))
             log.info("RENAME {!r} -> {!r}".format(src, dst))
             os.rename(src, dst)
 
